@@ -136,6 +136,30 @@ TABLE.update({
     ),
 })
 
+TABLE.update({
+    "C11": (
+        True,
+        MC,
+        "explicit-state BFS to fix-point over set-operation histories on the "
+        "real CFG object, Python set as reference model",
+        "All histories (fix-point over every subset of a 5-edge universe - "
+        "thorough: 8 edges - and every reachable multigraph key layout and "
+        "node-presence pattern) of add, discard, remove, pop, clear, update "
+        "(also with a repeated edge), |=, &=, -=, ^= (also with the CFG "
+        "itself). The universe has a self-loop on a detached proxy, three "
+        "parallel edges differing only in label (None vs all-false label vs "
+        "another) and opposite directions. After every transition len, "
+        "iteration (no duplicates), membership of every universe edge, "
+        "out_edges/in_edges of every node and outgoing_edges/incoming_edges "
+        "of attached and detached nodes are compared with the set model; "
+        "once per state the binary operators, comparisons, isdisjoint and "
+        "CFG(iterable) are compared with the built-in set.",
+        "Trusted: the set model. Edge universes larger than 8 edges / 3 "
+        "nodes are outside the bound.",
+        "3/C11",
+    ),
+})
+
 PENDING = [
     "C01", "C02", "C03", "C04", "C05", "C06", "C07", "C08", "C09", "C10",
     "C11", "C12", "C13", "C14", "C16", "C17", "C18", "C19",
